@@ -216,9 +216,36 @@ func TestVerifC12(t *testing.T) {
 		r.Eval(fmt.Sprintf("testpriv:len=%d", l))
 	}
 
+	// ---- values from the LIMB GRID around n - 1 (each limb 0, limb - 1, limb, limb + 1, all ones): the private-key test,
+	//      derivation and key generation must draw the line exactly at n - 2
+	{
+		grid := ref.LimbGrid(nm1)
+		hk.Parallel(len(grid), func(i int) {
+			v := grid[i]
+			b := ref.B32(v)
+			want := 0
+			if !ref.ValidPriv(v) {
+				want = -1
+			}
+			if got := TestPrivateKey(b); got != want {
+				r.Violation("testprivatekey-wrong:limb-grid-around-n-1", hk.D{"priv": hk.Hex(b), "got": got, "want": want})
+			}
+			if i%3 == int(hk.Seed()%3) || hk.Thorough() {
+				stream := append(append([]byte{}, b...), ref.B32(bi(7))...)
+				model := ref.SM2KeyGen(stream)
+				priv, x, _, err := GenerateKey(newScript(stream))
+				if err != nil || !bytes.Equal(priv, ref.B32(model.D)) || !bytes.Equal(x, ref.B32(model.Pub.X)) {
+					r.Violation("generatekey-wrong:first-candidate-from-limb-grid-around-n-1", hk.D{"candidate": hk.Hex(b), "priv": hexOrNil(priv), "model_d": hk.Hex(ref.B32(model.D)), "err": errStr(err)})
+				}
+			}
+			r.Eval("limb-grid-around-n-1")
+		})
+	}
+
 	// ---- DerivePublic: [d]G or an error, never a panic, never a wrong point
 	var dvals []*big.Int
 	dvals = append(dvals, vals[:60]...)
+	dvals = append(dvals, ref.LimbGrid(nI)[:625:625]...)
 	for i := 0; i < hk.N(300, 5000); i++ {
 		dvals = append(dvals, new(big.Int).SetBytes(rng.Bytes(32)))
 	}
